@@ -38,12 +38,12 @@ PROPS["C01"] = dict(
                 "no index, slice or unwrap can fail (the radix slices under the scanner's token invariant; `arms[arms.len() - 1]` only when a default arm was seen), diagnostics only grow, and every loop terminates under the measure "
                 "3 x input left + 2 x [look-ahead not Eof] + [current not Eof] (Eof is not assumed absorbing: a NUL in the text yields Eof in mid-input). "
                 "Code generator (cgen unit, round 3): compile_statement (all arms incl. loop / while / break / continue), compile_expression (all arms), compile_if_expression, compile_logical_and / or, compile_function_literal, compile_match_expression, compile_filter_statement, emit_action_stmt, compile_block_statement, "
-                "compile_identifier / index / dot / prop / infix, load / save_symbol, enter / leave_scope and the stream helpers (emit, change_operand, patch_jump, remove_last_pop, replace_last_pop_with_return, replace_instruction) are verified on their real bodies against a "
+                "compile_identifier / index / dot / prop / infix, load / save_symbol, enter / leave_scope, Compiler::new / new_with_state (establish the invariant), compile (keeps it) and the stream helpers (emit, change_operand, patch_jump, remove_last_pop, replace_last_pop_with_return, replace_instruction) are verified on their real bodies against a "
                 "representation invariant (the scope's bytes are a sequence of well-formed instructions, last_ins is the last of them, every recorded break placeholder is the start of a Jump): no index, slice, truncation, patch, subtraction or unwrap in them can fail for any AST, "
                 "each only appends to the stream and restores block depth, loop stack and symbol-table nesting.",
     not_covered=["termination of the recursive descent as a whole: the recursive entries parse_expression / parse_statement are seen by their callers through one assumed contract (diagnostics grow, the measure does not increase), so each function's own loops terminate but the recursion depth (bounded by the tokens consumed) is stated, not proved",
                  "that each function value stored in PARSE_RULES is one of the verified prefix / infix parsers (the indirect calls go through dispatch shims carrying their common contract)",
-                 "termination of the compile_* recursion (structural on the AST: stated, not proved); Compiler::new (that it starts with one empty main scope is read, not verified)"],
+                 "termination of the compile_* recursion (structural on the AST: stated, not proved)"],
     assumptions=["cgen: the two AST shapes the parser never produces for an error-free program reach the compiler's two panic! sites (Statement::Invalid; a Builtin identifier other than stdin/stdout/stderr); every match expression has at least one arm and every arm at least one pattern (the parser appends the default arm); block depth stays below usize::MAX; a map literal has fewer than usize::MAX/2 pairs; symbol-table operations keep the nesting of tables (symtab unit's contracts, restated)",
                  "Unicode classification (is_alphabetic/is_alphanumeric) is uninterpreted except: NUL is in no class, alphabetic implies alphanumeric",
                  "fewer than 2^64 - 2 characters/tokens are scanned (read_position does not overflow)",
